@@ -15,7 +15,18 @@ Encoding of a declaration (all decimal integers):
                  4 #[zero_copy(pod, skip_packed)]  5 #[unsized_type(skip_idl)]  6 #[unsized_type(skip_idl, skip_phantom_generics)]
                  (6 is sent to the Coq model as 5: the marker is a zero-sized field without bit patterns)
   F  form        0 struct with named fields  1 tuple struct  2 enum  3 union
-  G  generic     0 not generic; k>0: one type parameter T, instantiated with field type k-1 where it is used
+  G  generic     0 not generic; k + 100*B with 0 < k < 100 and B in {0, 1, 2}: one type parameter T, instantiated with
+                 field type k-1 where it is used, declared in BOUND STYLE B (so every encoding written before the
+                 styles existed, G = k < 100, still means what it meant: style 0)
+                   B = 0  only the bounds the macro / the form needs, inline:  struct D<T>, struct D<T: bytemuck::Pod>
+                          (zero_copy(pod..)), struct D<T: UnsizedGenerics> (unsized_type), union D<T: Copy>
+                   B = 1  an inline `Copy` bound in front of them:             struct D<T: Copy>, struct D<T: Copy + bytemuck::Pod>
+                          (a union already needs `T: Copy`: its B = 1 source equals its B = 0 source)
+                   B = 2  no inline bound, everything in an explicit clause:   struct D<T> where T: Copy { .. },
+                          struct D<T>(..) where T: Copy + bytemuck::Pod;  union D<T> where T: Copy { .. }
+                 every field type of the grammar is Copy, so the style never changes which instantiations are legal:
+                 it must not change any verdict (the Coq model decodes G mod 100 and ignores B: C19_bound_style_irrelevant).
+                 100 and 200 (a style without a parameter) are not encodings
   repr items     (0,0) start a new #[repr(..)] attribute  (1,0) C  (2,0) transparent  (3,k) integer repr k
                  (0 u8 1 i8 2 u16 3 i16 4 u32 5 i32 6 u64 7 i64)  (4,0) packed  (5,N) packed(N)  (6,N) align(N)
   NV variants    structs/unions have exactly one "variant" (their field list); for M=5 it is the sized part
@@ -98,7 +109,7 @@ MACROS = {0: "#[derive(Align1)]", 1: "#[zero_copy]", 2: "#[zero_copy(skip_packed
 
 RULE = ("declarations drawn from the grammar: macro {derive(Align1), zero_copy, zero_copy(skip_packed), zero_copy(pod), "
         "zero_copy(pod, skip_packed), unsized_type} x form {struct, tuple struct, unit-only / data enum, union, generic with "
-        "one type parameter and a chosen instantiation} x representation {none, C, transparent, u8/i8/u16/u32/u64, packed, "
+        "one type parameter, a chosen instantiation and a bound style: none | inline `T: Copy` | `where T: Copy` clause} x representation {none, C, transparent, u8/i8/u16/u32/u64, packed, "
         "packed(1|2|4), align(1|2|4|8) and combinations of one base with up to two modifiers, in one or two #[repr] "
         "attributes, any order} x 0-4 fields from {u8, bool, (), i8, [u8;N], PackedValue<u64|u16>, Pubkey, a u8 enum, "
         "NonZeroU8, [bool;2] | u16, u32, u64, u128, [u16;2]}; unsized structs additionally draw 1-3 unsized fields from "
@@ -106,7 +117,8 @@ RULE = ("declarations drawn from the grammar: macro {derive(Align1), zero_copy, 
         "[u8;0], PackedValue<u64>, List<PackedValue<u64>>, bool, and three unsized enums (#[unsized_type] #[repr(u8)] enum "
         "with a unit default variant plus: a List<u8> variant and a RemainingBytes variant | a List<u8> variant only | a "
         "variant whose payload is the nested struct ending in RemainingBytes)}, each enum also placed systematically first / "
-        "last / alone / in the middle of the unsized fields; the documented valid forms and the D13 witnesses are "
+        "last / alone / in the middle of the unsized fields; a systematic slice of bound style x macro x {struct, tuple struct, "
+        "union} x T = u8 | bool | u16 | u64 x T first / last; the documented valid forms and the D13 witnesses are "
         "always included. every declaration is compiled by cargo against /repo's working tree and every accepted one is "
         "executed. non-trivial = the declaration is accepted by the compiler (the marker is certified and its numbers are "
         "compared), or it is rejected by a decision of the macro under test or of an assertion it generates (repr conflicts, "
@@ -134,7 +146,17 @@ ASSUMPTIONS = [
 
 # ---------------------------------------------------------------------------------------------
 # encoding helpers
+G_STYLE = 100                     # G = k + G_STYLE * bound style
+STYLES = {0: "no extra bound", 1: "inline `T: Copy`", 2: "`where T: Copy` clause"}
+
+
+def g_of(inst, style=0):
+    """the G component: T instantiated with field type `inst`, declared in bound style `style`"""
+    return inst + 1 + G_STYLE * style
+
+
 def enc(m, f, g, reprs, variants, ufields=()):
+    """g is the complete G component (0, or g_of(instantiation, style))"""
     out = [m, f, g, len(reprs)]
     for c, a in reprs:
         out += [c, a]
@@ -166,6 +188,9 @@ def dec(ints):
         return None
     if m not in MACROS or f not in (0, 1, 2, 3) or g < 0 or nr < 0:
         return None
+    style, g = g // G_STYLE, g % G_STYLE
+    if style not in STYLES or (style and not g):
+        return None
     for v in variants:
         for x in v:
             if x != T_CODE and x not in FIELDS:
@@ -182,7 +207,7 @@ def dec(ints):
         return None
     if m not in (5, 6) and nu:
         return None
-    return {"macro": m, "form": f, "generic": g, "reprs": reprs, "variants": variants, "ufields": uf}
+    return {"macro": m, "form": f, "generic": g, "style": style, "reprs": reprs, "variants": variants, "ufields": uf}
 
 
 def repr_attrs(reprs):
@@ -225,22 +250,32 @@ def rust_source(ints):
     lines = ["// generated by lib/props/c19.py -- case " + " ".join(str(x) for x in ints),
              "#![allow(dead_code, unused_imports, unused_attributes, unused_variables, non_camel_case_types)]",
              "use star_frame::prelude::*;", "use core::mem::{align_of, size_of};", ""]
+    where = ""
     if g:
-        bound = {0: "", 1: "", 2: "", 3: ": bytemuck::Pod", 4: ": bytemuck::Pod", 5: ": star_frame::unsize::impls::UnsizedGenerics",
-                 6: ": star_frame::unsize::impls::UnsizedGenerics"}[m]
+        needed = {0: [], 1: [], 2: [], 3: ["bytemuck::Pod"], 4: ["bytemuck::Pod"],
+                  5: ["star_frame::unsize::impls::UnsizedGenerics"], 6: ["star_frame::unsize::impls::UnsizedGenerics"]}[m]
         if f == 3:
-            bound = ": Copy" if not bound else bound + " + Copy"
-        gen_decl = "<T%s>" % bound
+            needed = needed + ["Copy"]
+        if d["style"]:
+            needed = ["Copy"] + [b for b in needed if b != "Copy"]
+        bounds = " + ".join(needed)
+        if d["style"] == 2:
+            gen_decl, where = "<T>", "where T: " + bounds
+        else:
+            gen_decl = "<T%s>" % (": " + bounds if bounds else "")
         gen_use = "<%s>" % FIELDS[g - 1][0]
     else:
         gen_decl = gen_use = ""
+    # `where` goes between the header and the braces, but AFTER the parenthesised fields of a tuple struct
+    w_brace = " " + where if where else ""
+    w_tuple = " " + where if where else ""
     lines.append(MACROS[m])
     lines += attrs
     name = "D"
     if m in (5, 6) and f == 1:
         parts = [fty(x) for x in d["variants"][0]]
         parts += [("#[unsized_start] " if i == 0 else "") + UFIELDS[u][0] for i, u in enumerate(d["ufields"])]
-        lines.append("struct %s%s(%s);" % (name, gen_decl, ", ".join(parts)))
+        lines.append("struct %s%s(%s)%s;" % (name, gen_decl, ", ".join(parts), w_tuple))
     elif m in (5, 6):
         body = []
         for i, x in enumerate(d["variants"][0]):
@@ -249,21 +284,21 @@ def rust_source(ints):
             if i == 0:
                 body.append("    #[unsized_start]")
             body.append("    u%d: %s," % (i, UFIELDS[u][0]))
-        lines.append("struct %s%s {" % (name, gen_decl))
+        lines.append("struct %s%s%s {" % (name, gen_decl, w_brace))
         lines += body
         lines.append("}")
     elif f == 0:
-        lines.append("struct %s%s {" % (name, gen_decl))
+        lines.append("struct %s%s%s {" % (name, gen_decl, w_brace))
         lines += ["    f%d: %s," % (i, fty(x)) for i, x in enumerate(d["variants"][0])]
         lines.append("}")
     elif f == 1:
-        lines.append("struct %s%s(%s);" % (name, gen_decl, ", ".join(fty(x) for x in d["variants"][0])))
+        lines.append("struct %s%s(%s)%s;" % (name, gen_decl, ", ".join(fty(x) for x in d["variants"][0]), w_tuple))
     elif f == 3:
-        lines.append("union %s%s {" % (name, gen_decl))
+        lines.append("union %s%s%s {" % (name, gen_decl, w_brace))
         lines += ["    f%d: %s," % (i, fty(x)) for i, x in enumerate(d["variants"][0])]
         lines.append("}")
     else:
-        lines.append("enum %s%s {" % (name, gen_decl))
+        lines.append("enum %s%s%s {" % (name, gen_decl, w_brace))
         for i, v in enumerate(d["variants"]):
             lines.append("    V%d%s," % (i, "(%s)" % ", ".join(fty(x) for x in v) if v else ""))
         lines.append("}")
@@ -632,12 +667,17 @@ def _gen_fields(rng, n, wide_p, with_t=False):
     return fs
 
 
+def _gen_style(rng):
+    """bound style of a generic declaration: half as before, the rest split between the inline bound and the where clause"""
+    return rng.weighted([(0, 50), (1, 20), (2, 30)])
+
+
 def _gen_one(rng):
     macro = rng.weighted([(0, 45), (1, 12), (2, 10), (3, 6), (4, 4), (5, 23)])
     if macro == 5:
         generic = 0
         if rng.chance(1, 5):
-            generic = 1 + rng.choice(ALIGN1_FIELDS + [10, 12])
+            generic = g_of(rng.choice(ALIGN1_FIELDS + [10, 12]), _gen_style(rng))
         ns = rng.weighted([(0, 15), (1, 35), (2, 30), (3, 20)])
         sized = _gen_fields(rng, ns, 25, with_t=bool(generic))
         if not generic and rng.chance(1, 6):
@@ -660,7 +700,7 @@ def _gen_one(rng):
         form = rng.weighted([(0, 55), (1, 15), (2, 25), (3, 5)])
     generic = 0
     if rng.chance(1, 6):
-        generic = 1 + rng.choice(ALIGN1_FIELDS[:8] + WIDE_FIELDS[:3])
+        generic = g_of(rng.choice(ALIGN1_FIELDS[:8] + WIDE_FIELDS[:3]), _gen_style(rng))
     reprs = _gen_reprs(rng, form, macro)
     if form == 2:
         nv = rng.weighted([(0, 3), (1, 20), (2, 40), (3, 30), (4, 7)])
@@ -752,7 +792,22 @@ def gen_cases(rng, tier):
         add(enc(5, 0, 0, [], [[fcode]], [0]), "sys")
         add(enc(5, 0, 0, [], [[0, fcode]], [0]), "sys")
         add(enc(0, 0, 0, [], [[fcode]]), "sys")
-    total = 600 if tier == "quick" else 5000
+    # bound styles of generic declarations: the derive must bound every field type whatever the way the declaration
+    # writes its own bounds (none / inline / explicit where clause).  every style x macro x {struct, tuple struct, union}
+    # x instantiation {u8, bool, u16, u64} x T first / last; derive(Align1) also under repr(C) and under the documented
+    # packed form (unconditional there), the unsized macros on the struct form (the only one they take)
+    for style in sorted(STYLES):
+        for inst_code in (0, 1, 10, 12):
+            g = g_of(inst_code, style)
+            for fl in ([T_CODE, 0], [0, T_CODE]):
+                for form in (0, 1, 3):
+                    for r in ([], [(1, 0)], C_PACKED):
+                        add(enc(0, form, g, r, [fl]), "sys")
+                    for mcode in (1, 2, 3, 4):
+                        add(enc(mcode, form, g, [], [fl]), "sys")
+                for mcode in (5, 6):
+                    add(enc(mcode, 0, g, [], [fl], [0]), "sys")
+    total = 1200 if tier == "quick" else 5000
     guard = 0
     while len(out) < total and guard < total * 20:
         guard += 1
@@ -862,7 +917,8 @@ def describe(ints):
     decl = [l for l in src.split("\n")[5:] if l.strip()]
     decl = decl[:decl.index("fn main() {")] if "fn main() {" in decl else decl
     return {"macro": MACROS[d["macro"]], "declaration": " ".join(l.strip() for l in decl),
-            "instantiation": FIELDS[d["generic"] - 1][0] if d["generic"] else None}
+            "instantiation": FIELDS[d["generic"] - 1][0] if d["generic"] else None,
+            "bound_style": STYLES[d["style"]] if d["generic"] else None}
 
 
 MACRO_ERR = re.compile(r"Align1 requires|conflicting|duplicate representation|Zero-sized types are not allowed|with padding|"
@@ -880,7 +936,11 @@ def shrink(ints):
     d = dec(ints)
     if d is None:
         return
-    m, f, g, reprs, vs, uf = d["macro"], d["form"], d["generic"], d["reprs"], d["variants"], d["ufields"]
+    m, f, reprs, vs, uf = d["macro"], d["form"], d["reprs"], d["variants"], d["ufields"]
+    inst_code = d["generic"] - 1
+    g = d["generic"] + G_STYLE * d["style"]             # the complete G component
+    if d["style"]:
+        yield enc(m, f, d["generic"], reprs, vs, uf)       # same declaration without the extra bound
     for i in range(len(reprs)):
         yield enc(m, f, g, reprs[:i] + reprs[i + 1:], vs, uf)
     for vi, v in enumerate(vs):
@@ -894,7 +954,7 @@ def shrink(ints):
         for vi in range(len(vs)):
             yield enc(m, f, g, reprs, vs[:vi] + vs[vi + 1:], uf)
     if g:
-        yield enc(m, f, 0, reprs, [[(g - 1) if x == T_CODE else x for x in v] for v in vs], uf)
+        yield enc(m, f, 0, reprs, [[inst_code if x == T_CODE else x for x in v] for v in vs], uf)
     for i in range(len(uf)):
         if len(uf) > 1:
             yield enc(m, f, g, reprs, vs, uf[:i] + uf[i + 1:])
@@ -918,19 +978,21 @@ def matches_known(entry, ints, obs):
 
 
 def distribution(cases, impl, errors):
-    macro, form, verdict, reprs, errs = Counter(), Counter(), Counter(), Counter(), Counter()
+    macro, form, verdict, reprs, errs, styles = Counter(), Counter(), Counter(), Counter(), Counter(), Counter()
     for name, ints in cases:
         d = dec(ints)
         o = impl.get(name) or []
         macro[MACROS[d["macro"]]] += 1
         form[("generic " if d["generic"] else "") + ["struct", "tuple struct", "enum", "union"][d["form"]]] += 1
         verdict["accepted" if o[:1] == [1] else "rejected"] += 1
+        if d["generic"]:
+            styles["%s: %s" % (STYLES[d["style"]], "accepted" if o[:1] == [1] else "rejected")] += 1
         reprs[" ".join(repr_attrs(d["reprs"])) or "(none)"] += 1
         if o[:1] != [1]:
             e = errors.get(name, "?")
             mm = re.match(r"error(\[E\d+\])?: ([^:]{0,48})", e)
             errs[(mm.group(1) or "") + " " + mm.group(2).strip() if mm else e[:40]] += 1
-    return {"macro": dict(macro), "form": dict(form), "verdict": dict(verdict),
+    return {"macro": dict(macro), "form": dict(form), "verdict": dict(verdict), "generic_bound_styles": dict(styles),
             "representations_top": dict(reprs.most_common(25)), "rejection_reasons": dict(errs.most_common(25))}
 
 
